@@ -423,9 +423,41 @@ FUNCS = ['solver.solve', 'solver.solve_main', 'solver.OptimResults', 'params.Par
          'params.check_bool', 'controller.ExitInformation', 'util.apply_scaling']
 
 
+def body_proj_init(E, n, num_pts, num_directions):
+    """general convex constraints: does the coordinate initialisation accept every documented (npt, growing.ndirs_initial)?
+    Best case for the code: the projected coordinate directions are independent (rank n)."""
+    from ..state import mk_params, mk_objfun, EvalLog
+    np = E.np
+    log = EvalLog()
+    objfun = mk_objfun(E, 1, log)
+    params = mk_params(E, n, num_pts, 50)
+    x0 = E.vec('x0_', n)
+    P = [lambda w: w, lambda w: w]
+    big = E.const(10 ** 20)
+    xl = E.arr([-big] * n, 'f') if E.symbolic else np.array([-1e20] * n)
+    xu = E.arr([big] * n, 'f') if E.symbolic else np.array([1e20] * n)
+    C = E.get('Controller')(objfun, (), x0.copy(), E.vec('r0_', 1), 1, xl, xu, P, num_pts, E.const('0.5'), E.const('0.0005'), 1, 1, 50, params, None, False)
+    E.patch('dykstra', lambda P_, x, max_iter=100, tol=1e-10: E.vec('dy', n))
+    E.patch('qr_rank', lambda A, tol=1e-15: (n, np.ones((n,))))
+    E.hooks(rng=lambda kind, size, **kw: np.zeros(size, dtype=int) if kind == 'randint' else np.ones(size))
+    try:
+        C.initialise_coordinate_directions(1, num_directions, params)
+    except RuntimeError as e:
+        E.fail('C07:proj-init:raises-RuntimeError[ndirs%sn]' % ('==' if num_directions == n else '!='), detail=str(e)[:100])
+        return
+    E.reach('proj-init:ok')
+
+
 def harnesses(tier, seed):
     hs = []
     cfg = core.Cfg(qtimeout_ms=20000)
+    for (n_, npt_, nd_) in ((1, 2, 1), (2, 3, 2), (2, 5, 4), (2, 3, 1)):
+        hs.append(Harness("proj-init[n=%d,npt=%d,ndirs=%d]" % (n_, npt_, nd_), 'dfverif.checks.c07', 'body_proj_init',
+                          params=dict(n=n_, num_pts=npt_, num_directions=nd_), cfg=core.Cfg(qtimeout_ms=20000, uflin=True),
+                          functions=['controller.Controller.initialise_coordinate_directions'],
+                          bounds="n=%d, npt=%d, %d initial directions; projected coordinate directions independent; starting point and objective values symbolic" % (n_, npt_, nd_),
+                          assumptions=["dykstra: fresh vector; qr_rank: rank n (best case); random selectors all zero (they cannot change the outcome: D is n x n)"],
+                          nproc=1, max_replays=2))
     ns = [1] if tier == 'quick' else [1, 2]
     common = ["solve_main stubbed: reaching it ends the path ('input accepted')",
               "objfun/h/prox_uh never called during validation",
